@@ -39,12 +39,22 @@ def _shapes(tier):
                             n += 1
         # the first data cell of the score as chord / rest / decorated note (what opens a measure without an opening barline)
         for M in (1, 2):
-            for lens in itertools.product((0, 1, 2), repeat=M):
+            for lens in ((1,), (0,), (1, 1), (0, 1)):
+                if len(lens) != M:
+                    continue
                 for opening in (0, 1):
                     for pickup in (0, 1):
                         for final in (0, 1):
                             for fk, ks in ((1, 1), (1, 2), (2, 1), (3, 1)):
                                 out.append((M, tuple(lens), opening, pickup, final, ks, 0, fk))
+        # blank lines inside the text (after the header block / in front of every barline): stages and text lines drift apart
+        for M in (2, 3):
+            for lens in ((1,) * M, (2, 0, 1)[:M]):
+                for opening in (0, 1):
+                    for pickup in (0, 1):
+                        for final in (0, 1):
+                            for bl in (1, 2, 3):
+                                out.append((M, tuple(lens), opening, pickup, final, 1 + (bl == 2), 0, 0, bl))
         return out
     for M in range(1, maxM + 1):
         lens_opts = itertools.product((0, 1, 2), repeat=M) if (tier == 'quick' or M <= 3) else \
@@ -54,8 +64,13 @@ def _shapes(tier):
                 for pickup in ((0, 1) if tier == 'quick' else (0, 1, 2)):
                     for final in (0, 1):
                         for ks, ts in ((1, 0), (2, 0), (1, 1)) + (((2, 1),) if tier != 'quick' else ()):
-                            for fk in (0, 1, 2, 3):
-                                out.append((M, tuple(lens), opening, pickup, final, ks, ts, fk))
+                            out.append((M, tuple(lens), opening, pickup, final, ks, ts, 0, 0))
+                            if M <= 2 and ts == 0:
+                                for fk in (1, 2, 3):
+                                    out.append((M, tuple(lens), opening, pickup, final, ks, ts, fk, 0))
+                            if M <= 3 and (ks, ts) == (1, 0) and sum(lens) <= 3:
+                                for bl in (1, 2, 3):
+                                    out.append((M, tuple(lens), opening, pickup, final, ks, ts, 0, bl))
     return out
 
 
@@ -66,6 +81,13 @@ _CACHE = {}
 def load(tier):
     global SHAPES
     SHAPES = _shapes(tier)
+    # witness points that exist in both tiers: the first shape with two measures, an opening barline and a final barline
+    w = next(i for i, sh in enumerate(SHAPES) if sh[0] == 2 and sh[2] == 1 and sh[4] == 1 and sum(sh[1]) >= 2)
+    for ob in OBLIGATIONS:
+        if ob.id == 'C07.a':
+            ob.witnesses = [{'shape': w, 'a': 1, 'b': 1}, {'shape': w, 'a': -3, 'b': 1}]
+        else:
+            ob.witnesses = [{'shape': w}]
 
 
 @native
@@ -124,6 +146,12 @@ def _b_body(i):
     ks, ts = sh[5], sh[6]
     kw = {'spine_types': ['**kern']} if ts else {}
     check(list(doc) == list(range(1, M + 1)), f'list(doc) = {list(doc)}, expected 1..{M}')
+    # iteration protocol: a loop left early, nested loops and a second pass all see 1..M again
+    it = iter(doc)
+    first = next(it)
+    check(first == 1 and list(doc) == list(range(1, M + 1)), f'after one next(iter(doc)) a new loop yields {list(doc)}')
+    check(list(zip(doc, doc)) == [(m, m) for m in range(1, M + 1)], f'zip(doc, doc) = {list(zip(doc, doc))}')
+    check([m for m in doc] == list(range(1, M + 1)) and [m for m in doc] == list(range(1, M + 1)), 'two passes in a row differ')
     check(doc.measures_count() == M and doc.get_first_measure() == 1, 'measures_count / get_first_measure')
     full = rm.data_lines(rm.parse(kp.dumps(doc, **kw)))
     parts = []
@@ -137,7 +165,7 @@ def _b_body(i):
 
 def _desc(shape, a=None, b=None):
     sh = SHAPES[shape]
-    d = {'shape(M,lens,opening,pickup,final,kern_spines,text_spine[,first_kind])': list(sh), 'text': rm.build(*sh).text}
+    d = {'shape(M,lens,opening,pickup,final,kern_spines,text_spine[,first_kind[,blank_lines]])': list(sh), 'text': rm.build(*sh).text}
     if a is not None:
         d.update(from_measure=a, to_measure=b)
     return d
@@ -152,7 +180,7 @@ OBLIGATIONS = [
        budget_s={'quick': 170, 'thorough': 2400}, opaque_numbers=True, untrace=UNTRACE,
        witnesses=[{'shape': 5, 'a': 1, 'b': 1}, {'shape': 40, 'a': -3, 'b': 1}], min_confirmed=300,
        symbolic='from_measure, to_measure: unbounded integers', enumerated='score shape selector',
-       bounds={'quick': 'M<=2 barline-delimited measures x 0..2 data rows each (M=3: 0..1 rows, spine variant rotating) x opening barline x pickup 0..1 x final barline x {1 kern, 2 kern, kern+text}; + first data cell as chord / rest / decorated note (M<=2)',
+       bounds={'quick': 'M<=2 barline-delimited measures x 0..2 data rows each (M=3: 0..1 rows, spine variant rotating) x opening barline x pickup 0..1 x final barline x {1 kern, 2 kern, kern+text}; + first data cell as chord / rest / decorated note (M<=2); + blank lines after the header block / in front of every barline',
                'thorough': 'M<=4 (<=5 data rows when M=4), pickup 0..2, + {2 kern + text}'},
        assumptions=['symbolic numbers are rendered opaquely inside error messages (tripwire: the sentinel must not reach exported text; native re-runs use real formatting)'],
        describe=_desc),
